@@ -20,6 +20,8 @@ def run(ctx: core.Ctx) -> int:
     ctx.rule("TRUST-SIG", "cse / simplify / lambdify / ccode are called with the trusted signatures only")
     py = ctx.parse("py/formak/python.py")
     cp = ctx.parse("py/formak/cpp.py")
+    from . import c06 as _c06
+    _c06.config_pass(ctx)
     tmprules.check_python_block(ctx, py)
     tmprules.check_cpp_block(ctx, cp)
     return core.finish(ctx, explanation="symbolic evaluation of the two BasicBlock classes against the temporaries protocol, "
